@@ -417,7 +417,8 @@ fn exact_lerp_expect(a: i128, c: i128, x: f32) -> Option<i128> {
     let p1 = a.checked_mul(one_minus)?;               // a·(1-x) · 2^k
     let p2 = c.checked_mul(m)?;                       // c·x · 2^k
     let sum = p1.checked_add(p2)?;
-    if !(fits(one_minus) && fits(p1) && fits(p2) && fits(sum) && fits(a) && fits(c)) { return None; }
+    // (with a = 0 the first product is an exact zero whatever the rounding of 1 − x)
+    if !((a == 0 || fits(one_minus)) && fits(p1) && fits(p2) && fits(sum) && fits(a) && fits(c)) { return None; }
     // round half away from zero of sum / 2^k
     let d = 1i128 << k;
     let q = sum.div_euclid(d);
@@ -438,6 +439,26 @@ fn gen_lerp(r: &mut Rng, n: usize, out: &mut dyn Write, exhaustive8: bool) {
                     writeln!(out, "lerp {} {} {} {}", kind, a, bb, b(1.0)).unwrap();
                     writeln!(out, "# expect C14 1 0={}", bb).unwrap();
                     writeln!(out, "lerp {} {} {} {}", kind, a, bb, b(x)).unwrap();
+                }
+            }
+        }
+    }
+    // directed: results next to a rounding tie — 0 → 2^j at x within two ulps of (k + ½) / 2^j: the product is exact, so the
+    // integer result is the real interpolation rounded to nearest with no room for float noise (0.49999997 → 0, 0.5 → 1)
+    for kind in ["u8", "u16", "i8", "i16", "i32", "u32", "i64", "u64", "usize"] {
+        let (lo, hi) = int_bounds(kind);
+        for j in [0u32, 1, 2, 3, 4, 6] {
+            let c: i128 = 1 << j;
+            for k in [0i128, 1, 2, 5, 20] {
+                if 2 * k + 1 >= 2 * c { continue; }
+                let x0 = (k as f32 + 0.5) / c as f32;
+                for dk in [-2i32, -1, 0, 1, 2] {
+                    let x = nudge(x0, dk);
+                    for (a, cc) in [(0i128, c), (0, -c)] {
+                        if cc < lo || cc > hi { continue; }
+                        writeln!(out, "lerp {} {} {} {}", kind, a, cc, b(x)).unwrap();
+                        if let Some(e) = exact_lerp_expect(a, cc, x) { writeln!(out, "# expect C14 1 0={}", e).unwrap(); }
+                    }
                 }
             }
         }
@@ -1110,6 +1131,7 @@ fn gen_anim(r: &mut Rng, n: usize, out: &mut dyn Write) {
         if exact { writeln!(out, "# exactcfg").unwrap(); }
         let mut toks: Vec<String> = Vec::new();
         let mut tls: Vec<Option<GenTl>> = Vec::new();
+        let mut plain: Vec<bool> = Vec::new();     // the state's timeline is a single built timeline (not a merge)
         let mut next_slot = 10;
         let mut c04_ok = true;
         let tl_ok = |t: &GenTl| -> bool {
@@ -1117,7 +1139,7 @@ fn gen_anim(r: &mut Rng, n: usize, out: &mut dyn Write) {
         };
         for _ in 0..nstates {
             match r.below(6) {
-                0 | 1 => { toks.push("-".into()); tls.push(None); }
+                0 | 1 => { toks.push("-".into()); tls.push(None); plain.push(false); }
                 2 => {
                     // merged of two
                     let a = gen_timeline(r, shape, exact, true);
@@ -1127,7 +1149,7 @@ fn gen_anim(r: &mut Rng, n: usize, out: &mut dyn Write) {
                     writeln!(out, "merge {} 2 {} {} {}", next_slot + 2, next_slot, next_slot + 1, shape).unwrap();
                     c04_ok = c04_ok && tl_ok(&a) && tl_ok(&c);
                     toks.push((next_slot + 2).to_string());
-                    tls.push(Some(a));
+                    tls.push(Some(a)); plain.push(false);
                     next_slot += 3;
                 }
                 _ => {
@@ -1140,7 +1162,7 @@ fn gen_anim(r: &mut Rng, n: usize, out: &mut dyn Write) {
                     writeln!(out, "{}", a.line(next_slot)).unwrap();
                     c04_ok = c04_ok && tl_ok(&a);
                     toks.push(next_slot.to_string());
-                    tls.push(Some(a));
+                    tls.push(Some(a)); plain.push(true);
                     next_slot += 1;
                 }
             }
@@ -1162,6 +1184,15 @@ fn gen_anim(r: &mut Rng, n: usize, out: &mut dyn Write) {
                     let dt = if exact { r.pick(&dts_exact) } else if r.chance(1, 4) { r.unit_f32() * 3.0 } else { r.pick(&dts_any) };
                     writeln!(out, "adv 0 {}", b(dt)).unwrap();
                     if let Some(l) = &c08 { writeln!(out, "{}", l).unwrap(); }
+                    // C08 inside a state: a property the state's own timeline has no keyframe for is not moved by advancing
+                    if plain[cur] {
+                        if let Some(Some(tl)) = tls.get(cur) {
+                            let fields = shape_fields(shape);
+                            let anim_idx: Vec<usize> = fields.iter().enumerate().filter(|(_, f)| f.1).map(|(k, _)| k).collect();
+                            let keep: Vec<String> = anim_idx.iter().enumerate().filter(|(j, _)| !tl.kfs.iter().any(|k| k.vals[*j].is_some())).map(|(_, fi)| fi.to_string()).collect();
+                            if !keep.is_empty() { writeln!(out, "# keepprev C08 {}", keep.join(" ")).unwrap(); }
+                        }
+                    }
                     if dt == 0.0 && c04_ok { writeln!(out, "# eqprev C06").unwrap(); }
                 }
                 6 => {
@@ -1339,6 +1370,10 @@ fn gen_sub(r: &mut Rng, n: usize, out: &mut dyn Write) {
         writeln!(out, "sub 2 {}", body).unwrap();
         let ov = vt(r);
         writeln!(out, "subov 1 {}", ov).unwrap();
+        // slot 3: another sub-timeline with another override, then overwritten by `clone_from(slot 1)`: a copy is a copy
+        writeln!(out, "sub 3 {} {} {} 1 {} - {}", if int { "i" } else { "f" }, vt(r), e0, b(0.5), vt(r)).unwrap();
+        if r.chance(2, 3) { writeln!(out, "subov 3 {}", vt(r)).unwrap(); }
+        writeln!(out, "subcf 3 1").unwrap();
         // the property's own frames: a synthetic 0 % frame if its first keyframe is later
         let data: Vec<f32> = (0..nkf).filter(|i| present[*i]).map(|i| ps[i]).collect();
         let f1: Option<f32> = if data.is_empty() { None } else if data[0] > 0.0 { Some(data[0]) } else if data.len() > 1 { Some(data[1]) } else if data[0] < 1.0 { Some(1.0) } else { None };
@@ -1352,9 +1387,14 @@ fn gen_sub(r: &mut Rng, n: usize, out: &mut dyn Write) {
             writeln!(out, "subat 1 {} {} {}", b(t), hint, ovr as u8).unwrap();
             writeln!(out, "subat 2 {} {} {}", b(t), hint, ovr as u8).unwrap();
             let truthful = (hint == hc || hint == hc + 1 || hint == he || hint == he + 1) && hint < nkf;
-            if !ovr || (truthful && f1.map(|f| tc >= f).unwrap_or(false)) {
-                writeln!(out, "# eq C10 1 2").unwrap();
-            }
+            let c10 = !ovr || (truthful && f1.map(|f| tc >= f).unwrap_or(false));
+            if c10 { writeln!(out, "# eq C10 1 2").unwrap(); }
+            // slots 1 and 2 hold the same keyframes, one handed over as a slice, one as a lazily filtered iterator (C01: the
+            // values do not depend on how the keyframes were passed)
+            if !ovr { writeln!(out, "# eq C01 {} {}", 1 + c10 as usize, 2 + c10 as usize).unwrap(); }
+            writeln!(out, "subat 3 {} {} {}", b(t), hint, ovr as u8).unwrap();
+            writeln!(out, "subat 1 {} {} {}", b(t), hint, ovr as u8).unwrap();
+            writeln!(out, "# eq C10 1 2").unwrap();
         }
     }
 }
@@ -1419,6 +1459,15 @@ fn gen_anim6(r: &mut Rng, n: usize, out: &mut dyn Write) {
                     writeln!(out, "# eqprev C06").unwrap();
                 }
             }
+        }
+        // sub-nanosecond and few-nanosecond steps: `Duration::from_secs_f32` rounds each step to whole nanoseconds, so N steps just
+        // under 1 ns (or of 0.6 / 1.4 ns) are N ns — the twin covers the same N ns in one step
+        if r.chance(1, 8) {
+            let (tiny, per) = r.pick(&[(nudge(1e-9, -1), 1u32), (0.6e-9f32, 1), (1.4e-9, 1), (1.6e-9, 2), (nudge(1e-9, 1), 1)]);
+            let n = r.pick(&[64u32, 1000]);
+            for _ in 0..n { writeln!(out, "adv 0 {}", b(tiny)).unwrap(); }
+            writeln!(out, "adv 1 {}", b((n * per) as f32 * 1e-9)).unwrap();
+            writeln!(out, "# eq C06 1 2").unwrap();
         }
         // many small steps against one big one: 257 / 1025 advances of 1/64 s (rarely 65 537 of 1/512 s) in one state —
         // call counters and narrow accumulators wrap only there; and one very long step (2 h) against two halves
